@@ -95,12 +95,12 @@ claim("C01",
 
 def _c04_split(name):
     lab = name.split(".", 1)[1]
-    return (lab in ("IC1", "IC2", "IC3", "CM1", "CM2", "SO1c", "RO1", "RO2", "RO3", "CX1") or lab.startswith("SO1.Compute.")
+    return (lab in ("IC1", "IC2", "IC3", "CM1", "CM2", "SO1c", "RO1", "RO2", "RO3", "CX1", "GR1", "GR2") or lab.startswith("SO1.Compute.")
             or lab == "SO1.Take.Compute" or lab.endswith(".safety"))
 
 
 prop("C04", ["window_frame", "split_order", "lower_cols", "group_take", "lower_transform"], select={"split_order": _c04_split, "lower_cols": lambda n: n.split(".", 1)[1] in ("DC5", "DC6") or n.endswith(".safety")},
-     not_covered="how the Flattener fills partition / sort / frame of a transform call from the enclosing group / sort / window (its Group / Sort arms are under contract in flatten_sort, the Window arm is not), row-count preservation, the window of the ROW_NUMBER() column")
+     not_covered="that the Flattener's log entries are the expressions whose columns end up in the window (the recursion of fold_expr is external; its Sort / Group / Window arms and the call it builds are under contract in flatten_sort / window_frame), row-count preservation, the window of the ROW_NUMBER() column")
 claim("C04",
       "PARTIAL. Proved on the real code, for all inputs: the window transform maps expanding / rolling:n / rows / range to exactly the documented "
       "(kind, start, end) with rolling:n = rows:(1-n)..0 and no overflow (WF1a-e); bound sign -> n PRECEDING / CURRENT ROW / n FOLLOWING, open "
@@ -109,7 +109,7 @@ claim("C04",
       "frame in effect on entry (FL1-3); a windowed compute has complexity Windowed and is never inlined where a requirement allows less, a filter "
       "never shares a SELECT with a preceding compute unless it is a HAVING, and reorder() never hoists a windowed compute over a take "
       "(split_order IC1, CM1, SO1c, RO1); an expression that needs a window always becomes a Compute of its own carrying the Lowerer's current window, and an "
-      "expression that does not carries none (lower_cols DC5-6); `take a..b` inside a group is DISTINCT / DISTINCT ON only when exactly the first row is kept and "
+      "expression that does not carries none (lower_cols DC5-6); the column that an aggregation or a window function takes as argument may be at most a CASE expression of the same SELECT - a window function or an aggregation has to come from a sub-query (get_requirements' cap, split_order GR1-2); `take a..b` inside a group is DISTINCT / DISTINCT ON only when exactly the first row is kept and "
       "otherwise a filter on ROW_NUMBER() that holds exactly for positions a..b (group_take DT1-4, RN1). the Lowerer's current window while the columns of a derive / select are declared is exactly the transform call's window - frame kind and lowered bounds, the declared partition columns, the lowered sort - aggregated columns are declared with no window, and no window is left in effect after the transform; `take` gets the call's partition and sort (lower_transform LT1-4, LT9: the whole `match` of lower_pipeline over the transform kinds, with a ghost log of the declarations). NOT proved: how the Flattener fills partition / sort / frame of a call from the enclosing window transform, row-count preservation.",
       "Flattener::fold_expr is external (ghost log of (expression, frame in effect)); slices drop the rest of resolve_special_func / "
       "translate_windowed; unpack_as_int_literal and sqlparser value construction are trusted by contract.")
@@ -174,8 +174,8 @@ claim("C10",
       "HashSet<Ident> is a shim with a ghost set view; in resolve_guards lookup_in is external (it is under contract in name_lookup, where Module::lookup is external: the mutual recursion is cut at the contracts, its termination is not proved); resolve_ident_wildcard, resolve_ident_fallback, ambiguous_error, expr_of_func are "
       "external; the drain loop over named parameters is replaced by its contract (stated in the evidence).")
 
-prop("C09", ["ident_quote", "ids_names", "rel_names"],
-     not_covered="content of the identifier regex and of the keyword tables; freshness of generated names against user names that are not registered yet; "
+prop("C09", ["ident_quote", "ids_names", "rel_names", "ident_regex"],
+     not_covered="content of the keyword tables; freshness of generated names against user names that are not registered yet; "
                  "the order in which assign_names visits the declarations (a user table named like a generated name is only protected if it is visited first)")
 claim("C09",
       "PARTIAL. Proved on the real code: translate_ident_part emits an identifier bare - unchanged - only if it is simple AND not a keyword "
@@ -185,7 +185,7 @@ claim("C09",
       "loaded id (IG1-3, SK1); names of one generator are pairwise distinct (NG1); at a pipeline split a re-declared column gets a name different from "
       "every name given at that split and the name is recorded (AS1a-c); every CTE gets a name different from the names of all CTEs named before it and every "
       "relation instance of a SELECT an alias different from those given before in that SELECT, while a name / alias that is present and unused is kept - the "
-      "user's table keeps its name (rel_names AN1-4, RN1-4; partial correctness: termination of the two regenerate-until-unused loops is not proved). NOT proved: content of regex / keyword tables, capture of not-yet-registered "
+      "user's table keeps its name (rel_names AN1-4, RN1-4; partial correctness: termination of the two regenerate-until-unused loops is not proved). the pattern of valid_ident() - compiled from the source literal into a spec function on every run - matches only `*` and texts of lower-case letters, digits, `_`, `$` that do not start with a digit, and matches every ordinary lower-case name (ident_regex RX1-3, for all character sequences). NOT proved: content of the keyword tables, capture of not-yet-registered "
       "user names.",
       "regex, HashSet, OnceLock tables, dyn DialectHandler, sqlparser Ident constructors, format! are shims by contract.")
 
